@@ -50,9 +50,9 @@ pub fn plan_for(prop: &str, tier: &str) -> Plan {
         }
         "C02" => {
             p.scenarios = if q {
-                sc(&[("elect", 1), ("elect-pv", 1), ("elect-cq", 1), ("elect-pvcq", 1), ("elect-stale", 0), ("stale", 1), ("member", 1), ("crash3", 1), ("xfer-abort", 0), ("xfer-race", 0), ("elect-pvmig-late", 0), ("xfer-race", 1), ("elect", 3)])
+                sc(&[("elect", 1), ("elect-pv", 1), ("elect-cq", 1), ("elect-pvcq", 1), ("elect-stale", 0), ("lag2", 0), ("stale", 1), ("member", 1), ("crash3", 1), ("xfer-abort", 0), ("xfer-race", 0), ("elect-pvmig-late", 0), ("xfer-race", 1), ("elect", 3)])
             } else {
-                sc(&[("elect", 1), ("elect-pv", 1), ("elect-cq", 1), ("elect-pvcq", 1), ("elect-stale", 0), ("stale", 1), ("member", 1), ("crash3", 1), ("xfer-abort", 0), ("xfer-race", 0), ("elect-pvmig-late", 0), ("xfer-race", 1), ("elect", 3), ("elect-prio", 3), ("elect-pvcq", 3), ("xfer", 1), ("stale", 2), ("member-joint", 2), ("member", 2), ("elect", 2), ("elect", 4)])
+                sc(&[("elect", 1), ("elect-pv", 1), ("elect-cq", 1), ("elect-pvcq", 1), ("elect-stale", 0), ("lag2", 0), ("stale", 1), ("member", 1), ("crash3", 1), ("xfer-abort", 0), ("xfer-race", 0), ("elect-pvmig-late", 0), ("xfer-race", 1), ("elect", 3), ("elect-prio", 3), ("elect-pvcq", 3), ("xfer", 1), ("stale", 2), ("lag2", 1), ("member-joint", 2), ("member", 2), ("elect", 2), ("elect", 4)])
             };
             p.required_stats = vec![Stat::LeadersSeen, Stat::VotesGranted];
             p.explanation = "explicit-state exploration; ghost leader_of[term] checked after every API call on every node, across crashes and restarts (crash cuts between receiving a vote request and persisting the vote included)".into();
